@@ -9,54 +9,74 @@ from vt.common import HarnessError
 LEVEL = 'other'
 EXPLANATION = (
     'CrossHair (symbolic execution, z3) runs the real bounded_gather2_return_exceptions, '
-    'bounded_gather2_raise_exceptions (cancel_on_error False/True), WithoutSemaphore and OnlineBoundedGather2 on the '
-    'real asyncio scheduling core (BaseEventLoop without the selector layer, constant clock) with N workers that await '
-    'director-owned futures. Symbolic integers: the order in which the futures are resolved (index into N!), per '
-    'resolution value-or-exception, per resolution how far the loop is drained before the next one (none / until '
-    'quiescent / one tick in thorough), and the workers\' result values. Concrete per condition: mode, parallelism P in '
-    '{1,2}, whether the caller holds a permit of the semaphore and calls bounded_gather2_* / '
-    'OnlineBoundedGather2 (the nested use they are written for) or is a top-level caller going through '
-    'bounded_gather(parallelism=P). Bounds: quick N=3; thorough N=3 with one-tick drains and N=4 for the '
-    'permit-holding P=2 configurations. Each future is resolved exactly once; outer cancellation of the gather call is '
-    'not explored. Oracle, from instrumentation inside the workers: at most P workers inside their body at once, both '
-    'while the call runs and among the workers that go on after a raise-mode call has raised (and the weaker P+1), results in submission order, return_exceptions puts every exception object in place, otherwise '
-    'the first exception a worker raised is the one propagated, no task created by the call pending when it returns and '
-    'no uncancelled worker body active at or after that moment (normal return, return_exceptions, cancel_on_error=True, '
-    'OnlineBoundedGather2 exit), the call returns once all futures '
-    'are resolved, and the semaphore holds afterwards what it held before. A refuted condition is replayed on plain '
-    'asyncio semantics of the same harness, classified by violated aspect, and re-run with those aspects excused until '
-    'CrossHair reports "Confirmed over all paths" for the rest.'
+    'bounded_gather2_raise_exceptions (cancel_on_error False/True), WithoutSemaphore, OnlineBoundedGather2 and '
+    'bounded_gather on the real asyncio scheduling core (BaseEventLoop without the selector layer, constant clock) with '
+    'N workers that await director-owned futures. Symbolic integers: the order in which the futures are resolved (index '
+    'into N!); per resolution its outcome (value / exception / the future is cancelled so that the worker ends with a '
+    'CancelledError of its own); per resolution how far the loop is drained before the next one (none / until '
+    'quiescent / one tick in thorough); the point at which the director cancels the CALLER task (before any '
+    'resolution, after the last one, or never) and the drain depth right after that; the number of extra loop turns '
+    '(0..2) every worker needs to unwind once cancelled; the result values. Concrete per condition: mode, parallelism '
+    'P in {1,2}, whether the caller holds a permit and calls bounded_gather2_* / OnlineBoundedGather2 (the nested use '
+    'they are written for) or is a top-level caller going through bounded_gather(parallelism=P). Two families per '
+    'configuration: S (no outer cancellation, three-valued outcomes) and C (outer cancellation at a symbolic point). '
+    'Bounds: N=3 (thorough also N=4 for permit-holding P=2 without outer cancellation); see bounds. Oracle, from '
+    'instrumentation inside the workers: at most P workers inside their body at once, during the call and among '
+    'workers that go on after it (and the weaker P+1); results in submission order, return_exceptions puts every '
+    'exception object (a worker\'s own CancelledError included) in place, otherwise the first exception that left a '
+    'worker is the one propagated (own CancelledError: the call ends cancelled; OnlineBoundedGather2 counts it as '
+    'completion); no task created by the call pending at return and no uncancelled worker body active at or after '
+    'return where clean-up is promised - without outer cancellation: normal return, return_exceptions, '
+    'cancel_on_error=True, OnlineBoundedGather2 exit; when the caller is cancelled: cancel_on_error=True and '
+    'OnlineBoundedGather2 only (return_exceptions / plain raise leave the children to asyncio.gather\'s own '
+    'cancellation and are not held to it); the call returns once all futures are resolved; the semaphore holds '
+    'afterwards what it held before. A refuted shard is replayed concretely, classified by aspect and scenario (no '
+    'outer cancel / caller cancelled / caller cancelled after a worker error), reported, and re-run with exactly '
+    'those aspect-scenario pairs excused for that configuration until CrossHair reports "Confirmed over all paths".'
 )
 SRC = 'hail/python/hailtop/utils/utils.py'
-FUNCS = ('bounded_gather2_return_exceptions', 'bounded_gather2_raise_exceptions', 'bounded_gather2', 'bounded_gather')  # all reached by the harness
+FUNCS = ('bounded_gather2_return_exceptions', 'bounded_gather2_raise_exceptions', 'bounded_gather2', 'bounded_gather')
 CLASSES = ('WithoutSemaphore', 'OnlineBoundedGather2')
 
 
 def finding_class(H, bit, mode, holder):
-    """stable names; KNOWN_FINDINGS.jsonl is keyed by them"""
-    if bit == H.A_BOUND:
-        return ('parallelism-bound-exceeded-during-call[permit-holding caller]' if holder
-                else 'parallelism-bound-exceeded[top-level caller]')
-    if bit == H.A_BOUND_AFTER:
+    """stable names; KNOWN_FINDINGS.jsonl is keyed by them.  `bit` is a mask bit (aspect x scenario tag)."""
+    abit, t = H.tag_of(bit)
+    suffix = f'; {H.TAGS[t]}' if t else ''
+    if t and abit in (H.A_PERMITS, H.A_PERMITS1, H.A_BOUND_AFTER, H.A_BOUND1):
+        suffix = f'; {H.TAGS[1]}'      # permit accounting: one class for both caller-cancelled scenarios
+    if abit == H.A_BOUND:
+        return ('parallelism-bound-exceeded-during-call[permit-holding caller' if holder
+                else 'parallelism-bound-exceeded[top-level caller') + suffix + ']'
+    if abit == H.A_BOUND_AFTER:
         # workers that keep running after a failed raise-mode gather: the caller (bounded_gather itself in the
         # top-level configurations) holds a permit, releases it on the way out, and WithoutSemaphore left one extra
-        return 'parallelism-bound-exceeded[permit-holding caller]'
-    return f'{H.ASPECTS[bit]}[{mode}]'
+        return 'parallelism-bound-exceeded[permit-holding caller' + suffix + ']'
+    return f'{H.ASPECTS[abit]}[{mode}{suffix}]'
 
 
 def configs(tier):
-    """(mode, holder, P, n)"""
+    """condition tuples without the perm range: (mode, holder, P, n, fam, omax, dmax, umax) — see C20_template"""
     out = []
+    if tier == 'quick':
+        for mode in ('ret', 'raise', 'cancel', 'online'):
+            out.append((mode, True, 1, 3, 'S', 1, 1, 1))
+            out.append((mode, True, 2, 3, 'S', 2, 1, 1))
+        for mode in ('ret', 'raise', 'cancel'):
+            out.append((mode, False, 1, 3, 'S', 1, 1, 1))
+        for mode in ('raise', 'cancel', 'online'):
+            out.append((mode, True, 2, 3, 'C', 1, -1, 1))
+        return out
     for mode in ('ret', 'raise', 'cancel', 'online'):
         for P in (1, 2):
-            out.append((mode, True, P, 3))
+            out.append((mode, True, P, 3, 'S', 2, 2, 2))
+            out.append((mode, True, P, 3, 'C', 2 if P == 2 else 1, -1, 2))
     for mode in ('ret', 'raise', 'cancel'):
-        out.append((mode, False, 1, 3))
-    if tier == 'thorough':
-        for mode in ('ret', 'raise', 'cancel'):
-            out.append((mode, False, 2, 3))
-        for mode in ('ret', 'raise', 'cancel', 'online'):
-            out.append((mode, True, 2, 4))
+        for P in (1, 2):
+            out.append((mode, False, P, 3, 'S', 2, 1, 2))
+            out.append((mode, False, P, 3, 'C', 1, -1, 2))
+    for mode in ('raise', 'cancel', 'online'):
+        out.append((mode, True, 2, 4, 'S', 1, 1, 1))
     return out
 
 
@@ -64,28 +84,42 @@ def run(R):
     from harness import C20_gather as H
     from harness import C20_template as T
     quick = R.tier == 'quick'
-    dmax = 1 if quick else 2
     pct = 400 if quick else 1300
-    max_rounds = 8
+    max_rounds = 10
     cfgs = configs(R.tier)
-    R.bounds = {'workers': '3' if quick else '3 (all configurations), 4 (permit-holding caller, P=2; drains none/full)',
+    R.bounds = {'workers': '3' if quick else '3 (all configurations), 4 (permit-holding caller, P=2, raise / cancel_on_error '
+                                              '/ online, no outer cancellation, two-valued outcomes)',
                 'parallelism_P': '1..2', 'resolutions': 'each worker future resolved exactly once, any order',
-                'drain_choices': 'none / until quiescent' + ('' if quick else ' / exactly one tick (N=3)'),
-                'modes': 'return_exceptions, raise, raise+cancel_on_error, OnlineBoundedGather2(call x N, wait, exit)',
-                'caller': 'holds one permit and calls bounded_gather2_* / OnlineBoundedGather2; or top-level via bounded_gather(parallelism=P)'}
+                'outcomes': 'value / exception / worker ends with its own CancelledError (family S; family C: value / '
+                            'exception' + ('' if quick else ', three-valued for permit-holding P=2') + ')',
+                'drain_choices': 'family S: none / until quiescent' + ('' if quick else ' / exactly one tick') +
+                                 '; family C: until quiescent between resolutions, none / quiescent / one tick after '
+                                 'the outer cancel',
+                'outer_cancel_point': 'before resolution 0..N-1, after the last one, or never (family S)',
+                'worker_unwind_turns': '0..1' if quick else '0..2',
+                'modes': 'return_exceptions, raise, raise+cancel_on_error, OnlineBoundedGather2(call x N, wait first, exit)',
+                'caller': 'holds one permit and calls bounded_gather2_* / OnlineBoundedGather2; or top-level via '
+                          'bounded_gather(parallelism=P)',
+                'configurations': [list(c) for c in cfgs]}
     R.assume(
-        'the event loop is asyncio.BaseEventLoop (real call_soon/_run_once/Task/Future machinery) with a null selector '
-        'and a constant clock; the code under test uses neither timers nor I/O',
-        'workers are harness coroutines that count themselves in and out, await a director-owned future and record '
-        'cancellation / the order in which they raise; "first exception raised" is taken from that record',
+        'the event loop is asyncio.BaseEventLoop (real call_soon/_run_once/Task/Future machinery) with a null selector, '
+        'a constant clock and a task factory that keeps tasks alive; the code under test uses neither timers nor I/O',
+        'workers are harness coroutines that count themselves in and out, await a director-owned future, need a symbolic '
+        'number of extra loop turns inside their CancelledError handler, and record cancellation / the order in which '
+        'exceptions leave them; "first exception raised" is taken from that record',
         'bounded_gather2_* and OnlineBoundedGather2 are only called by a coroutine that holds one permit of the semaphore '
         '(their WithoutSemaphore releases one); a direct call from a coroutine that holds none (e.g. '
         'hailtop/fs/router_fs.py _async_ls) admits P+1 workers and is outside the claim',
         'OnlineBoundedGather2 script: call() for every worker, wait() for the first task only, then leave the context',
-        'outer cancellation of the gather call, PoolShutdownError on late OnlineBoundedGather2.call, and more than 4 '
-        'workers are outside the explored space',
-        'a condition refuted by CrossHair is re-run with the violated aspects excused for that configuration, so a '
-        'second, different defect within an already-violated aspect of the same configuration would be masked',
+        'clean-up promises used by the oracle when the caller is cancelled: cancel_on_error=True (its finally block runs '
+        'for every exception) and OnlineBoundedGather2 (__aexit__ shuts the pool down for any exception) must leave no '
+        'task pending and no uncancelled work; return_exceptions and plain raise mode promise nothing there (children are '
+        'cancelled by asyncio.gather itself, not awaited) and are only checked for bound, permits and termination',
+        'at most one outer cancellation per run; a second cancel while the clean-up itself is waiting, '
+        'PoolShutdownError on late OnlineBoundedGather2.call, and more than 4 workers are outside the explored space',
+        'a shard refuted by CrossHair is re-run with the violated (aspect, scenario) pairs excused for that '
+        'configuration, so a second, different defect within an already-violated pair of the same configuration would '
+        'be masked',
         'CrossHair 0.0.110 path exploration is exhaustive when it reports "Confirmed over all paths"',
     )
     R.extra['trusted_base'] = ['CrossHair/z3', 'harness/C20_gather.py oracle and instrumentation',
@@ -97,78 +131,74 @@ def run(R):
         if isinstance(n, ast.ClassDef) and n.name in CLASSES:
             R.encode(f'{SRC}:{n.lineno} class {n.name}', ast.get_source_segment(text, n))
 
-    # shards: (cfg, lo, hi) perm ranges
+    # shards: full condition tuples (mode, holder, P, n, lo, hi, fam, omax, dmax, umax)
     shards = []
-    for cfg in cfgs:
-        n = cfg[3]
+    for mode, holder, P, n, fam, omax, dmax, umax in cfgs:
         nperm = math.factorial(n)
-        step = 3 if n == 3 else 1
-        if not quick and n == 3:
-            step = 2
+        step = (3 if quick else 1) if n == 3 else 1
         for lo in range(0, nperm, step):
-            shards.append((cfg, lo, min(lo + step, nperm)))
+            shards.append((mode, holder, P, n, lo, min(lo + step, nperm), fam, omax, dmax, umax))
 
-    def dm(cfg):
-        return 1 if cfg[3] == 4 else dmax
+    def key(s):   # findings are excused per (mode, holder, P, n), across both families
+        return s[:4]
 
-    excused = {cfg: 0 for cfg in cfgs}
-    settled = {}          # shard -> (verdict, mask it was run with, secs)
+    excused = {key(s): 0 for s in shards}
+    settled = {}          # shard -> (verdict, mask it was run with, message)
     spent = {s: 0.0 for s in shards}
     reported = set()
-    # twins first round only
     twin_res = {}
     for rnd in range(max_rounds):
         todo = [s for s in shards if s not in settled]
         if not todo:
             break
-        run_mask = {s: excused[s[0]] for s in todo}
-        by_dm = {}
+        run_mask = {s: excused[key(s)] for s in todo}
+        conds = [(s, run_mask[s]) for s in todo]
+        twins = todo if rnd == 0 else []
+        gm = chrun.gen_module(f'C20_conditions_{R.tier}_r{rnd}', T.source(conds, twins))
+        targets = [f'{gm}.{T.cond_name(s, m)}' for s, m in conds] + [f'{gm}.{T.twin_name(s)}' for s in twins]
+        res = chrun.run(targets, per_condition_timeout=pct, workers=8)
+        if rnd == 0:
+            for s in todo:
+                twin_res[s] = res[f'{gm}.{T.twin_name(s)}'][0]
         for s in todo:
-            by_dm.setdefault(dm(s[0]), []).append(s)
-        res = {}
-        for d, ss in by_dm.items():
-            conds = [s[0] + (s[1], s[2], run_mask[s]) for s in ss]
-            twins = [s[0] + (s[1], s[2]) for s in ss] if rnd == 0 else []
-            gm = chrun.gen_module(f'C20_conditions_{R.tier}_r{rnd}_d{d}', T.source(conds, twins, d))
-            targets = [f'{gm}.{T.cond_name(*c)}' for c in conds] + [f'{gm}.{T.twin_name(*t)}' for t in twins]
-            r = chrun.run(targets, per_condition_timeout=pct, workers=8)
-            for s, c in zip(ss, conds):
-                res[s] = r[f'{gm}.{T.cond_name(*c)}']
-                if rnd == 0:
-                    twin_res[s] = r[f'{gm}.{T.twin_name(*(s[0] + (s[1], s[2])))}'][0]
-        for s in todo:
-            cfg = s[0]
-            mode, holder, P, n = cfg
-            v, msg, dt = res[s]
+            mode, holder, P, n, lo, hi, fam, omax, dmax, umax = s
+            v, msg, dt = res[f'{gm}.{T.cond_name(s, run_mask[s])}']
             spent[s] += dt
             if v == 'refuted':
-                args = chrun.parse_counterexample(msg, T.argnames(n))
+                args = chrun.parse_counterexample(msg, T.argnames(s))
                 if args is None:
                     raise HarnessError(f'cannot parse CrossHair counterexample: {msg}')
                 rep = {'mode': mode, 'holder': holder, 'P': P, 'n': n, 'perm': args['perm'],
-                       'outs': [args[f'o{i}'] for i in range(n)], 'drains': [args[f'd{i}'] for i in range(n - 1)],
-                       'vals': [args[f'v{i}'] for i in range(n)]}
-                mask, info = H.run_schedule(mode, holder, P, n, rep['perm'], rep['outs'], rep['drains'], rep['vals'])
+                       'outs': [args[f'o{i}'] for i in range(n)],
+                       'drains': [args[f'd{i}'] for i in range(n - 1)] if dmax >= 0 else [1] * (n - 1),
+                       'vals': [args[f'v{i}'] for i in range(n)],
+                       'cpoint': args['cp'] if fam == 'C' else H.NEVER, 'cdrain': args['cd'] if fam == 'C' else 0,
+                       'unwind': args['uw']}
+                mask, info = _run(H, rep)
                 new = mask & ~run_mask[s]
                 if not new:
-                    raise HarnessError(f'CrossHair counterexample does not reproduce concretely: {cfg} {msg}')
-                for bit in H.ASPECTS:
-                    if new & bit and (finding_class(H, bit, mode, holder), cfg) not in reported:
+                    raise HarnessError(f'CrossHair counterexample does not reproduce concretely: {s} {msg}')
+                for bit in H.all_bits():
+                    if new & bit and (finding_class(H, bit, mode, holder), key(s)) not in reported:
                         cls = finding_class(H, bit, mode, holder)
+                        cp = rep['cpoint']
                         what = (f'{mode} caller_holds_permit={holder} P={P} N={n} resolve order '
-                                f'{list(H.decode_perm(n, rep["perm"]))} outcomes {rep["outs"]} drains {rep["drains"]}: '
-                                f'{info}')
+                                f'{list(H.decode_perm(n, rep["perm"]))} outcomes {rep["outs"]} (0 value, 1 exception, 2 '
+                                f'own CancelledError) drains {rep["drains"]} '
+                                + (f'caller cancelled before resolution #{cp} then drain {rep["cdrain"]} ' if cp != H.NEVER
+                                   else '') + f'worker unwind turns {rep["unwind"]}: {info}')
                         st = R.finding(cls, what, dict(rep, aspect=bit))
-                        reported.add((cls, cfg))
-                        R.ob(f'{H.ASPECTS[bit]}: {mode}, caller_holds_permit={holder}, P={P}, N={n}', st, dt,
+                        reported.add((cls, key(s)))
+                        R.ob(f'{cls}: caller_holds_permit={holder}, P={P}, N={n}', st, dt,
                              {'cex': rep, 'info': info}, nontrivial=True)
-                excused[cfg] |= new
+                excused[key(s)] |= new
             else:
                 settled[s] = (v, run_mask[s], msg)
     for s in shards:
-        cfg = s[0]
-        mode, holder, P, n = cfg
-        name = (f'{mode}, caller_holds_permit={holder}, P={P}, N={n}, resolve orders {s[1]}..{s[2] - 1}: all aspects'
+        mode, holder, P, n, lo, hi, fam, omax, dmax, umax = s
+        famtxt = 'no outer cancel' if fam == 'S' else 'caller cancelled at a symbolic point'
+        name = (f'{mode}, caller_holds_permit={holder}, P={P}, N={n}, {famtxt}, outcomes 0..{omax}, resolve orders '
+                f'{lo}..{hi - 1}: all aspects'
                 + (f' except {H.names(settled[s][1])}' if s in settled and settled[s][1] else ''))
         reach = twin_res.get(s) == 'refuted'
         if s in settled and settled[s][0] == 'confirmed':
@@ -176,15 +206,20 @@ def run(R):
                  'excused_mask': settled[s][1]}, nontrivial=reach)
         else:
             R.ob(name, 'not_discharged', spent[s], {'crosshair': (settled.get(s) or ('', 0, 'rounds exhausted'))[2][-200:]})
-        R.sample({'config': list(cfg), 'perms': [s[1], s[2]], 'verdict': settled.get(s, ('unsettled',))[0],
+        R.sample({'shard': list(s), 'verdict': settled.get(s, ('unsettled',))[0],
                   'excused': H.names(settled[s][1]) if s in settled else None, 'secs': round(spent[s], 1)})
-    R.extra['excused_aspects_per_configuration'] = {str(c): H.names(m) for c, m in excused.items() if m}
+    R.extra['excused_per_configuration'] = {str(c): H.names(m) for c, m in excused.items() if m}
+
+
+def _run(H, d):
+    return H.run_schedule(d['mode'], d['holder'], d['P'], d['n'], d['perm'], d['outs'], d['drains'], d['vals'],
+                          d.get('cpoint', H.NEVER), d.get('cdrain', 0), d.get('unwind', 0))
 
 
 def replay(path):
     from harness import C20_gather as H
     d = json.load(open(path))['replay']
-    mask, info = H.run_schedule(d['mode'], d['holder'], d['P'], d['n'], d['perm'], d['outs'], d['drains'], d['vals'])
+    mask, info = _run(H, d)
     bad = bool(mask & d['aspect'])
-    print(('property violated: ' if bad else 'property holds: ') + H.ASPECTS[d['aspect']], d, info)
+    print(('property violated: ' if bad else 'property holds: ') + str(H.names(d['aspect'])), d, info)
     return 1 if bad else 0
